@@ -149,7 +149,7 @@ pub fn generate(group: &str, seed: u64, n: usize) -> Vec<Value> {
                 let none = json!({"kind":"none"});
                 match k {
                     "num" => json!({"k":"num","c":g2.coef(r),"id":0,"f":none}),
-                    "dv" => json!({"k":"dv","c":[0,1],"id":g2.id(r),"f":none}),
+                    "dv" => json!({"k":"dv","c":[0,1],"id":g2.id(r),"f":none,"vk":*r.pick(&["binary", "integer", "continuous"])}),
                     "param" => json!({"k":"param","c":[0,1],"id":g2.id(r),"f":none}),
                     "lin" => json!({"k":"lin","c":[0,1],"id":0,"f":g2.linear(r)}),
                     "quad" => json!({"k":"quad","c":[0,1],"id":0,"f":g2.quadratic(r, true)}),
